@@ -64,7 +64,7 @@ def run_case(case) -> CaseResult:
         r = rng.random()
         if r < 0.3:
             inject = rng.choice(['dangling', 'selfloop', 'cycle2', 'cycle3'])
-        run_build_case(rng, res, PROPS, feat=dict(FEAT, **case.get('feat', {})), inject=inject, parameter_mode=case.get('parameter_mode', True),
+        run_build_case(rng, res, PROPS, feat=dict(FEAT, **case.get('feat', {})), inject=inject, parameter_mode=case.get('parameter_mode', True), name_mode_twins=True,
                        after=seq_after if (i % 3 == 0 and case.get('parameter_mode', True)) else None)
         if len(res.violations) > 3:
             break
